@@ -25,7 +25,8 @@ POINTS = ["fe.status.read", "fe.status.write", "mutex.lock.read", "mutex.lock.ca
           "wake1.deq", "mutex.clearbit", "wake1.push", "wakeany.deq@empty", "wakeany.deq@nonempty", "wakeany.push",
           "mutex.unlock.read@cb", "mutex.clearbit@cb|mutex.unlock.cas1@cb"]
 SITUATIONS = ["waiter_first", "rewait", "two_callbacks_in_flight", "woken_before_release_done", "plain_lock_blocked",
-              "remark_same_status_wakes", "wrong_kind_waiters_both_asleep", "status_read_under_lock", "mixed_thread"]
+              "remark_same_status_wakes", "wrong_kind_waiters_both_asleep", "status_read_under_lock", "mixed_thread",
+              "reinit_after_full", "reinit_with_attr", "reinit_without_attr", "incarnations"]
 
 
 # --------------------------------------------------------------------------------------------------
@@ -122,6 +123,67 @@ def gen_hold(rng):
     return c
 
 
+def gen_lifecycle(rng, incs=None, workers=None, pswitch=None):
+    """object lifecycle: ONE felock object lives through 2-3 incarnations: myth_felock_init (attr == NULL or an
+    initialised myth_felockattr_t) - a mailbox program that ends with status 0 (as many takes as puts) or status 1
+    (one more put: the last item stays in the slot) - all participants joined - myth_felock_destroy -
+    myth_felock_init again on the same memory - the next mailbox program, consumers created first.  A freshly
+    initialised felock has status 0 whatever the object held before (the model's init_state): every incarnation
+    is replayed through the model from init_state."""
+    incs = incs or rng.rng(2, 3)
+    workers = workers or rng.rng(1, 4)
+    pswitch = pswitch or rng.choice([20, 35, 60, 85])
+    seed = rng.rng(1, 1 << 30)
+    threads, roles, incarnations = {}, {}, []
+    main = []
+    tag = 1
+    first_attr = rng.chance(1, 2)
+    if first_attr:      # the interpreter initialises its objects with attr == NULL: start over with an attribute object
+        main += ["fedestroy %s" % FE, "feinit %s attr" % FE]
+    tot_p = tot_c = 0
+    for n in range(incs):
+        P, C, k = rng.rng(1, 2), rng.rng(1, 2), rng.rng(1, 2)
+        takes = max(P, C) * k
+        full = rng.chance(1, 2) if n < incs - 1 else rng.chance(1, 3)
+        puts = takes + (1 if full else 0)
+        items, mine = [], []
+        for i, q in enumerate(split(puts, P)):
+            ops = []
+            for j in range(q):
+                v = 1000 * (n + 1) + 100 * (i + 1) + j
+                items.append(v)
+                ops += ["fewl %s 0" % FE, "set slot %d" % v, "add produced 1", "fems %s 1" % FE]
+            threads[tag], roles[tag] = ops, "producer"
+            mine.append(tag); tag += 1
+        for q in split(takes, C):
+            ops = []
+            for j in range(q):
+                ops += ["fewl %s 1" % FE, "get slot", "set slot -1", "add consumed 1", "fems %s 0" % FE]
+            threads[tag], roles[tag] = ops, "consumer"
+            mine.append(tag); tag += 1
+        order = list(mine)
+        rng.shuffle(order)
+        if n > 0 or rng.chance(1, 2):     # consumers first: they must WAIT on a fresh (empty) felock
+            order = [t for t in order if roles[t] == "consumer"] + [t for t in order if roles[t] != "consumer"]
+        main += ["create %d" % t for t in order] + ["join %d" % t for t in mine]
+        if full:
+            main += ["set slot -1"]       # the leftover item is taken out by hand; the status word stays 1
+        attr = rng.chance(1, 2)
+        incarnations.append({"items": sorted(items), "ends_full": bool(full), "attr": bool(first_attr if n == 0 else prev_attr)})
+        if n < incs - 1:
+            main += ["fedestroy %s" % FE, "feinit %s%s" % (FE, " attr" if attr else "")]
+        prev_attr = attr
+        tot_p += puts
+        tot_c += takes
+    threads[0] = main + ["get produced", "get consumed", "get slot"]
+    objs = ["%s felock" % FE, "slot var -1", "produced var 0", "consumed var 0"]
+    text = trace.case_text(workers, seed, objs, threads, pswitch=pswitch)
+    return {"text": text, "family": "lifecycle", "P": 0, "C": 0, "items": [], "total": tot_p, "lockers": 0,
+            "workers": workers, "pswitch": pswitch, "roles": {str(t): r for t, r in roles.items()},
+            "consumers_first": True, "incarnations": incarnations,
+            "expect": {"produced": tot_p, "consumed": tot_c, "slot": -1}}
+
+
 def gen_baton(rng, k=None, workers=None, pswitch=None, status=None):
     """baton passing (inside the class 'every wait_and_lock is closed by a mark_and_signal', outside the mailbox
     class): k peekers wait for the same status t and each RE-MARKS t, so every mark after the first one leaves
@@ -207,6 +269,26 @@ def analyse(case, r):
     roles = case.get("roles", {})
     both_seen = False
     cur_status = 0        # the status word as the POINT snapshots and the status writes show it
+    incs = case.get("incarnations") or [{"items": case["items"], "ends_full": False}]
+    inc = [0]
+
+    def close_incarnation():
+        """postcondition of the mailbox program of the current incarnation"""
+        want = incs[inc[0]] if inc[0] < len(incs) else {"items": [], "ends_full": False}
+        if sorted(produced) != sorted(want["items"]):
+            return "incarnation %d: produced items %s differ from the program's %s" % (inc[0], sorted(produced), want["items"])
+        if case.get("family", "mailbox") in ("mailbox", "lifecycle"):
+            left = sorted(produced)
+            for v in consumed:
+                if v in left:
+                    left.remove(v)
+            if want["ends_full"]:
+                if len(left) != 1 or cur_status != 1:
+                    return "incarnation %d should end full: unconsumed items %s, status %d" % (inc[0], left, cur_status)
+            elif left or len(consumed) != len(produced):
+                return "incarnation %d: consumed multiset %s differs from produced %s" % (inc[0], sorted(consumed), sorted(produced))
+        return None
+
     sections = {}         # thread -> kinds of sections it ran ('fe', 'plain')
     for idx, e in enumerate(r["events"]):
         T = e.actor
@@ -222,6 +304,18 @@ def analyse(case, r):
         elif e.kind == "C":
             calls[T] = {"op": e.words, "ev": [], "waits": 0}
             op = e.words
+            if op[0] == "fedestroy" and op[1] == FE:
+                if holder is not None:
+                    return ("t%d destroys the felock while t%d holds it (harness error)" % (T, holder["thread"]), st)
+                if r["events"][:idx] and any(x.kind == "C" and x.words[0] in ("fewl", "felock") for x in r["events"][:idx]):
+                    msg = close_incarnation()      # (not for the initial destroy / init-with-attr of an unused object)
+                    if msg:
+                        return (msg, st)
+                    if cur_status == 1:
+                        st["reinit_after_full"] += 1
+                    inc[0] += 1
+                    del produced[:], consumed[:]
+                    slot_full = None
             if op[0] == "fems" and op[1] == FE:
                 st["fems_calls"] += 1
             if op[0] in ("fems", "feunlock") and op[1] == FE and (holder is None or holder["thread"] != T):
@@ -309,6 +403,16 @@ def analyse(case, r):
                     return ("%s of t%d returned while t%d holds the lock" % (op[0], T, holder["thread"]), st)
                 holder = {"thread": T, "status": None, "written": False}
                 sections.setdefault(T, set()).add("fe" if op[0] == "fewl" else "plain")
+            if op[0] == "feinit" and op[1] == FE:
+                st["reinit_with_attr" if len(op) > 2 and op[2] == "attr" else "reinit_without_attr"] += 1
+                if ret != 0:
+                    return ("myth_felock_init returned %s" % ret, st)
+                if kv.get("status") != "0":
+                    return ("a freshly initialised felock (%s) has status %s - it must be 0 whatever the object held before "
+                            "(it was %d when it was destroyed)" % ("with attr" if len(op) > 2 else "attr == NULL", kv.get("status"), cur_status), st)
+                cur_status = 0
+            if op[0] == "fedestroy" and op[1] == FE and ret != 0:
+                return ("myth_felock_destroy returned %s" % ret, st)
             if op[0] == "festatus" and op[1] == FE:
                 # myth_felock_status under the lock: the status word itself (no POINT of its own): it must be what
                 # the last snapshot / status write shows (the model's status word, compared at every POINT by the
@@ -366,10 +470,10 @@ def analyse(case, r):
             elif op[0] == "get" and T == 0:
                 gets[op[1]] = ret
     st["mixed_thread"] += sum(1 for k in sections.values() if len(k) == 2)
-    if sorted(produced) != sorted(case["items"]):
-        return ("produced items %s differ from the program's %s" % (sorted(produced), case["items"]), st)
-    if case.get("family", "mailbox") == "mailbox" and sorted(consumed) != sorted(produced):
-        return ("consumed multiset %s differs from produced %s" % (sorted(consumed), sorted(produced)), st)
+    msg = close_incarnation()
+    if msg:
+        return (msg, st)
+    st["incarnations"] += inc[0] + 1 if case.get("family") == "lifecycle" else 0
     exp = case.get("expect") or {"produced": case["total"], "consumed": case["total"], "slot": -1}
     for var, x in exp.items():
         if gets.get(var) != x:
@@ -449,8 +553,45 @@ def run_cases_robust(ctx, exe, drv, texts):
     return out
 
 
+def run_lifecycle(ctx, exe, drv, text):
+    """a run with destroy / re-init: the trace is cut at every fedestroy and EVERY incarnation is replayed through the
+    model from init_state (one driver block each) - the model of myth_felock_init is init_state"""
+    wd = os.path.join(ctx.dir, "runs")
+    r = trace.run_case(exe, text, wd, "life", timeout=60)
+    groups, nt = trace.sync_groups(text)
+    g = [x for x in groups if x["felock"]][0]
+    cuts = [i for i, e in enumerate(r["events"]) if e.kind == "C" and e.words[0] == "fedestroy"]
+    parts, lo = [], 0
+    for c_ in cuts + [len(r["events"])]:
+        parts.append(r["events"][lo:c_])
+        lo = c_
+    blocks = [trace.sync_block(g, nt, p_) for p_ in parts if any(e.kind == "P" for e in p_)]
+    res = trace.validate_blocks(drv, blocks) if blocks else []
+    fc = []
+    for b, x in zip(blocks, res):
+        if x.startswith("FAIL"):
+            k = int(x.split()[1])
+            fc.append({"verdict": x, "model_input_tail": b[0][max(0, k - 10):k + 1],
+                       "trace_line": b[1][k].raw if k < len(b[1]) and b[1][k] is not None else None})
+    return {"case": text, "rc": r["rc"], "verdict": r["verdict"], "events": r["events"], "groups": groups,
+            "model": res, "fail_context": fc, "stderr": r["out"][-500:], "trace_path": r["trace_path"]}
+
+
 def judge(ctx, cases, exe, drv):
-    results = run_cases_robust(ctx, exe, drv, [c["text"] for c in cases])
+    results = []
+    for c in cases:
+        if c.get("family") == "lifecycle":
+            try:
+                results.append(run_lifecycle(ctx, exe, drv, c["text"]))
+                continue
+            except vlib.BuildError:
+                raise
+            except Exception as ex:          # noqa: a crashed run leaves an unparsable trace
+                results.append({"case": c["text"], "rc": -1, "verdict": None, "events": [], "groups": [], "model": [],
+                                "fail_context": [], "stderr": "trace unusable (%s: %s)" % (type(ex).__name__, str(ex)[:120]),
+                                "trace_path": os.path.join(ctx.dir, "runs", "life.trace")})
+                continue
+        results += run_cases_robust(ctx, exe, drv, [c["text"]])
     fails, mism, stats = [], [], {}
     for c, r in zip(cases, results):
         msg, st = analyse(c, r)
@@ -610,7 +751,8 @@ def compose_felock(ctx, exe, n):
 
 NEED = [p for p in POINTS] + ["waiter_first", "rewait", "plain_lock_blocked", "fewl_returns", "fems_calls",
                                 "remark_same_status_wakes", "wrong_kind_waiters_both_asleep", "status_read_under_lock",
-                                "mixed_thread", "two_callbacks_in_flight", "woken_before_release_done"]
+                                "mixed_thread", "two_callbacks_in_flight", "woken_before_release_done",
+                                "reinit_after_full", "reinit_with_attr", "reinit_without_attr", "incarnations"]
 
 
 def run(ctx):
@@ -631,6 +773,8 @@ def run(ctx):
     cases += [gen_case(ctx.rng, P=ctx.rng.rng(2, 3), C=ctx.rng.rng(2, 3), k=2, lockers=0, workers=ctx.rng.rng(2, 4),
                        pswitch=ctx.rng.choice([60, 85]), consumers_first=True) for _ in range(n // 10)]
     cases += [gen_hold(ctx.rng) for _ in range(n // 4)]
+    # object lifecycle: destroy + re-init (with / without attr) of a used felock, 2-3 incarnations
+    cases += [gen_lifecycle(ctx.rng) for _ in range(n // 5)]
     results, fails, mism, stats = judge(ctx, cases, exe, drv)
     for _ in range(3):    # the two overlap situations are probabilistic per run (~1/4 each): top up rather than be flaky
         if fails or mism or (stats.get("two_callbacks_in_flight") and stats.get("woken_before_release_done")):
@@ -664,6 +808,8 @@ def run(ctx):
         "occupancy and status witness on the R lines of fewl / felock)",
         "felock instance of the product tie: tools/props/compose.py merge + ocaml/driver_Compose.ml with the felock operations / "
         "observation added to its Sync instance in a private copy (tools/props/c09.py build_compose_driver), lib_interp machine snapshots",
+        "harness/lib_interp.c ops `fedestroy F`, `feinit F [attr]` (myth_felock_destroy / myth_felock_init on the same memory; "
+        "the model of init is SyncModel.init_state: each incarnation is a separate model block)",
         "harness/lib_interp.c op `festatus F` (myth_felock_status under the lock; no POINT, not a model step: compared with the "
         "status word of the snapshots, which the replay compares with the model's)",
         "tools/trace.py projection of traces onto the Sync model (a felock is one object group: status, mutex word, 3 queues); "
@@ -689,6 +835,7 @@ def run(ctx):
         extra += [gen_case(ctx.rng, C=ctx.rng.rng(2, 3), pswitch=ctx.rng.choice([60, 85, 90]), workers=ctx.rng.rng(2, 4),
                            consumers_first=ctx.rng.chance(1, 2)) for _ in range(200)]
         extra += [gen_baton(ctx.rng) for _ in range(50)]
+        extra += [gen_lifecycle(ctx.rng) for _ in range(50)]
         _, f2, _, _ = judge(ctx, extra, exe, drv)
         ctx.cov["correspondence"]["search_runs"] = len(extra)
         if f2:
@@ -728,7 +875,7 @@ def run(ctx):
 
 def replay(ctx, path):
     body = json.load(open(path))
-    c = body.get("case")
+    c = body.get("case") or (body if "text" in body else None)      # a replay file or a bare corpus case
     if not c or not isinstance(c, dict):
         print("replay file carries no case (broken obligation: %s)" % body.get("what"))
         return 0
